@@ -164,6 +164,9 @@ class Flow:
                 task.cancel()
                 with contextlib.suppress(BaseException):
                     await task
+                why = await wh.server_keeps_a_dead_connection(self.env, self.sid)
+                if why:
+                    return ("never-served", why)
                 return ("timeout", None)
         try:
             task.result()
